@@ -28,7 +28,7 @@ def corpus(tier):
     progs += F.ctl_family(4 if t else 3, ("fn",)) + F.ctl_family(4 if t else 3, ("gen", "gen-throw", "async"))
     progs += F.pair_family("thorough" if t else "quick") + F.class_family("quick") + F.destr_family() + F.gen_family("thorough" if t else "quick")
     progs += F.scope_family(tier) + F.completion_family(tier)[:: (1 if t else 2)] + F.capt_family(tier)
-    progs += F.op_family("quick")[:: (1 if t else 6)] + F.place_family(tier)[:: (1 if t else 4)] + F.fold_family(1)[:: (1 if t else 4)] + F.dce_family()
+    progs += F.op_family("quick")[:: (1 if t else 6)] + F.place_family(tier, operand_order=False)[:: (1 if t else 4)] + F.fold_family(1)[:: (1 if t else 4)] + F.dce_family()
     from . import c10, c20, c02
     progs += c10.STRONG + c10.WEAK + c20.ORDER_HEAVY + c02.hostile_programs()[:: (1 if t else 5)] + [p for _, _, p in c02.nest_programs()][:: (2 if t else 8)]
     return list(dict.fromkeys(progs))
